@@ -533,9 +533,316 @@ pub fn battery(text: &str, idents: &[String], t: &mut Tape, st: &mut Stats) -> C
     Ok(())
 }
 
+
+// ---------------------------------------------------------------- wide formulas (dozens .. hundreds of free variables)
+
+/// `(x0 | -x0) & .. ` fixes the variable order x0 < x1 < ..; the function is
+/// cube(all variables outside `gvars`, polarity `pol`) & g(gvars): a diagram of n + a few nodes
+/// whose table has about n rows, far beyond what a truth-table oracle can hold.
+#[derive(Clone, Debug)]
+pub struct Wide {
+    pub n: usize,
+    pub gvars: Vec<usize>,
+    pub g: TT,
+    pub pol: Vec<bool>,
+    pub flags: Vec<String>,
+    /// positions listed in an ordering file (file order), empty = no file
+    pub listed: Vec<usize>,
+}
+
+fn wname(i: usize) -> String {
+    format!("x{:03}", i)
+}
+
+impl Wide {
+    pub fn to_json(&self) -> Value {
+        json!({"kind": "wide", "n": self.n, "gvars": self.gvars, "g": self.g.to_hex(),
+            "pol": self.pol.iter().map(|b| if *b { '1' } else { '0' }).collect::<String>(),
+            "flags": self.flags, "listed": self.listed, "text": self.text()})
+    }
+    pub fn from_json(v: &Value) -> Option<Wide> {
+        let us = |x: &Value| -> Option<Vec<usize>> { x.as_array()?.iter().map(|y| y.as_u64().map(|u| u as usize)).collect() };
+        let w = Wide {
+            n: v["n"].as_u64()? as usize,
+            gvars: us(&v["gvars"])?,
+            g: TT::from_hex(v["g"].as_str()?)?,
+            pol: v["pol"].as_str()?.chars().map(|c| c == '1').collect(),
+            flags: v["flags"].as_array()?.iter().filter_map(|x| x.as_str().map(|s| s.to_string())).collect(),
+            listed: us(&v["listed"])?,
+        };
+        if w.pol.len() != w.n || w.g.k != w.gvars.len() || w.gvars.iter().any(|i| *i >= w.n) || w.listed.iter().any(|i| *i >= w.n) {
+            return None;
+        }
+        Some(w)
+    }
+    pub fn text(&self) -> String {
+        let mut s = String::new();
+        for i in 0..self.n {
+            if self.gvars.contains(&i) {
+                s.push_str(&format!("({} | -{}) & ", wname(i), wname(i)));
+            } else if self.pol[i] {
+                s.push_str(&format!("{} & ", wname(i)));
+            } else {
+                s.push_str(&format!("-{} & ", wname(i)));
+            }
+        }
+        let names: Vec<String> = self.gvars.iter().map(|i| wname(*i)).collect();
+        s.push_str(&format!("({})", crate::front::dnf_text(&self.g, &names)));
+        s
+    }
+    /// value of the function on the assignments covered by a row (by variable index): Some(v) if
+    /// constant, None if the row covers assignments with both values
+    fn value_on(&self, row: &[cli::Cell]) -> Option<bool> {
+        // a literal contradicted -> false everywhere
+        for i in 0..self.n {
+            if self.gvars.contains(&i) {
+                continue;
+            }
+            match (&row[i], self.pol[i]) {
+                (cli::Cell::True, false) | (cli::Cell::False, true) => return Some(false),
+                _ => {}
+            }
+        }
+        // g restricted to the row's cells
+        let k = self.gvars.len();
+        let mut seen_t = false;
+        let mut seen_f = false;
+        for idx in 0..(1usize << k) {
+            let compatible = self.gvars.iter().enumerate().all(|(p, i)| match row[*i] {
+                cli::Cell::Any => true,
+                cli::Cell::True => (idx >> p) & 1 == 1,
+                cli::Cell::False => (idx >> p) & 1 == 0,
+            });
+            if compatible {
+                if self.g.get(idx) {
+                    seen_t = true;
+                } else {
+                    seen_f = true;
+                }
+            }
+        }
+        let cube_open = (0..self.n).any(|i| !self.gvars.contains(&i) && row[i] == cli::Cell::Any);
+        if cube_open {
+            // some covered assignment contradicts the cube (value false) ..
+            if seen_t {
+                None
+            } else {
+                Some(false)
+            }
+        } else if seen_t && seen_f {
+            None
+        } else {
+            Some(seen_t)
+        }
+    }
+}
+
+/// 512-bit counter: sum of powers of two
+#[derive(Clone, PartialEq, Eq, Debug, Default)]
+struct Big([u64; 8]);
+
+impl Big {
+    fn add_pow2(&mut self, k: usize) {
+        let (mut w, b) = (k / 64, k % 64);
+        let (v, mut carry) = self.0[w].overflowing_add(1u64 << b);
+        self.0[w] = v;
+        while carry {
+            w += 1;
+            let (v, c) = self.0[w].overflowing_add(1);
+            self.0[w] = v;
+            carry = c;
+        }
+    }
+    fn sub(&self, o: &Big) -> Big {
+        let mut out = [0u64; 8];
+        let mut borrow = false;
+        for i in 0..8 {
+            let (a, b1) = self.0[i].overflowing_sub(o.0[i]);
+            let (a, b2) = a.overflowing_sub(borrow as u64);
+            out[i] = a;
+            borrow = b1 || b2;
+        }
+        Big(out)
+    }
+}
+
+pub fn check_wide(w: &Wide) -> Check {
+    let cj = w.to_json();
+    let v = |m: String| Violation::new(m, cj.clone());
+    let text = w.text();
+    let ordering_file = if w.listed.is_empty() {
+        None
+    } else {
+        Some(w.listed.iter().map(|i| wname(*i)).collect::<Vec<_>>().join("\n"))
+    };
+    let inv = Invocation {
+        text: text.clone(),
+        channel: "file".into(),
+        ordering_file,
+        flags: w.flags.clone(),
+    };
+    let out = spawn(&inv).map_err(|e| v(e))?;
+    let p = cli::parse_stdout(&out).map_err(|e| v(e))?;
+    let filter = inv.filter();
+    let all: Vec<String> = (0..w.n).map(wname).collect();
+    let listed: Vec<String> = w.listed.iter().map(|i| wname(*i)).collect();
+    let respects = |seq: &[String]| -> bool {
+        let pos: Vec<usize> = seq.iter().filter_map(|n| listed.iter().position(|l| l == n)).collect();
+        pos.windows(2).all(|x| x[0] < x[1])
+    };
+    let set_eq = |a: &[String]| -> bool {
+        let mut x = a.to_vec();
+        x.sort();
+        x == all
+    };
+    if inv.has("-r") && (!set_eq(&p.ordering) || !respects(&p.ordering)) {
+        return Err(v(format!("-r exported {} names that are not the {} variables once each in an order following the file", p.ordering.len(), w.n)));
+    }
+    // expected counts
+    let mut sat = Big::default();
+    for idx in 0..(1usize << w.gvars.len()) {
+        if w.g.get(idx) {
+            sat.add_pow2(0);
+        }
+    }
+    let mut total = Big::default();
+    total.add_pow2(w.n);
+    let unsat = total.sub(&sat);
+    let judge = |rows: &[(Vec<cli::Cell>, bool)], header: &[String], filter: char, what: &str| -> Result<(), String> {
+        if !set_eq(header) {
+            return Err(format!("{}: the columns are not exactly the {} free variables", what, w.n));
+        }
+        if what == "-t" && !respects(header) {
+            return Err(format!("{}: the columns do not follow the ordering file", what));
+        }
+        let col: Vec<usize> = header.iter().map(|h| all.iter().position(|a| a == h).expect("name")).collect();
+        // rows by variable index
+        let mut byvar: Vec<(Vec<cli::Cell>, bool)> = Vec::new();
+        for (r, res) in rows {
+            if r.len() != w.n {
+                return Err(format!("{}: row with {} cells for {} columns", what, r.len(), w.n));
+            }
+            let mut x = vec![cli::Cell::Any; w.n];
+            for (c, cell) in r.iter().enumerate() {
+                x[col[c]] = cell.clone();
+            }
+            byvar.push((x, *res));
+        }
+        let mut covered = Big::default();
+        for (ri, (r, res)) in byvar.iter().enumerate() {
+            match w.value_on(r) {
+                Some(val) if val == *res => {}
+                Some(val) => return Err(format!("{}: row {} says {} but the formula is {} on every assignment it covers", what, ri, res, val)),
+                None => return Err(format!("{}: row {} covers assignments on which the formula takes both values", what, ri)),
+            }
+            match filter {
+                't' if !*res => return Err(format!("{}: a False row under filter True", what)),
+                'f' if *res => return Err(format!("{}: a True row under filter False", what)),
+                _ => {}
+            }
+            covered.add_pow2(r.iter().filter(|c| **c == cli::Cell::Any).count());
+        }
+        for a in 0..byvar.len() {
+            for b in a + 1..byvar.len() {
+                let disjoint = (0..w.n).any(|i| {
+                    matches!((&byvar[a].0[i], &byvar[b].0[i]), (cli::Cell::True, cli::Cell::False) | (cli::Cell::False, cli::Cell::True))
+                });
+                if !disjoint {
+                    return Err(format!("{}: rows {} and {} overlap", what, a, b));
+                }
+            }
+        }
+        let want = match filter {
+            'a' => &total,
+            't' => &sat,
+            _ => &unsat,
+        };
+        if &covered != want {
+            return Err(format!("{}: the (disjoint, correct) rows do not cover exactly the assignments the filter asks for", what));
+        }
+        Ok(())
+    };
+    if inv.has("-t") {
+        let header = p.header.clone().ok_or_else(|| v("no table printed under -t".into()))?;
+        judge(&p.rows, &header, filter, "-t").map_err(|e| v(format!("{} -- {} rows printed", e, p.rows.len())))?;
+    }
+    if inv.has("-v") {
+        let mut rows = Vec::new();
+        for l in &p.var_lines {
+            let mut row = vec![cli::Cell::False; w.n];
+            for (name, star) in l {
+                let pos = all.iter().position(|h| h == name).ok_or_else(|| v(format!("-v lists `{}` which is not a free variable", name)))?;
+                row[pos] = if *star { cli::Cell::Any } else { cli::Cell::True };
+            }
+            rows.push((row, true));
+        }
+        judge(&rows, &all, 't', "-v").map_err(|e| v(e))?;
+    }
+    Ok(())
+}
+
+pub fn gen_wide(t: &mut Tape) -> Wide {
+    const SIZES: [usize; 16] = [1, 2, 7, 31, 32, 33, 63, 64, 65, 66, 70, 96, 127, 128, 129, 200];
+    let n = if t.chance(200) { SIZES[t.choose(SIZES.len())] } else { 1 + t.choose(140) };
+    let k = t.choose(4).min(n);
+    let mut gvars: Vec<usize> = Vec::new();
+    while gvars.len() < k {
+        // biased towards the ends and the 64-boundaries
+        let c = match t.choose(4) {
+            0 => n - 1 - t.choose(n.min(3)),
+            1 => t.choose(n),
+            2 => (63 + t.choose(4)).min(n - 1),
+            _ => t.choose(n.min(3)),
+        };
+        if !gvars.contains(&c) {
+            gvars.push(c);
+        } else if let Some(free) = (0..n).find(|i| !gvars.contains(i)) {
+            gvars.push(free);
+        }
+    }
+    gvars.sort();
+    let mut g = TT::konst(k, false);
+    let bits = t.byte();
+    for idx in 0..(1usize << k) {
+        if (bits >> idx) & 1 == 1 {
+            g.set(idx, true);
+        }
+    }
+    let pol: Vec<bool> = (0..n).map(|_| t.chance(128)).collect();
+    let mut flags: Vec<String> = Vec::new();
+    match t.choose(4) {
+        0 => flags.push("-t".into()),
+        1 => flags.push("-v".into()),
+        2 => {
+            flags.push("-t".into());
+            flags.push("-v".into());
+        }
+        _ => {
+            flags.push("-r".into());
+            flags.push("-t".into());
+        }
+    }
+    if t.chance(170) {
+        flags.push("-f".into());
+        flags.push(FILTERS[t.choose(FILTERS.len())].0.to_string());
+    }
+    let mut listed: Vec<usize> = Vec::new();
+    if t.chance(90) {
+        let m = 1 + t.choose(n.min(6));
+        for _ in 0..m {
+            let c = if t.chance(128) { n - 1 - t.choose(n.min(4)) } else { t.choose(n) };
+            if !listed.contains(&c) {
+                listed.push(c);
+            }
+        }
+    }
+    Wide { n, gvars, g, pol, flags, listed }
+}
+
 pub fn run(ctx: &mut Ctx) -> Result<(), Violation> {
     ctx.rule = "cases = invocations of the rsbdd binary built from the working tree: generated formula text (<= 5 free names of different widths incl. apostrophes and non-ASCII, reference-free, monotone fixed points) x filter spelling (all 15 accepted spellings) x channel (--evaluate / file / stdin) x ordering file (absent / permutation / strict subset / superset with unused names before, between, after / reversed; separators, comments, duplicates, keywords and numbers sprinkled in) x output (-t, -v, -t -v, -m -t, -m -v, -r -t) x -b N (1..3). \
                 Oracle: reference FV + variable numbering for the header; reference truth table projected on the header; rows pairwise disjoint, result column equal to the formula on EVERY total assignment covered, coverage exactly all / satisfying / falsifying per filter; -v lines cover exactly the satisfying assignments; -m prints one satisfying cube; stdout byte-identical across channels and -b N; exit status 0. \
+                Wide stage: cube(all but <= 3 variables) & g(<= 3 variables at the ends and around column 64) over 1..200 free variables, -t / -v / -r with every filter and partial ordering files; judged without a truth table: each row's result equals the formula on everything it covers (decided symbolically), rows pairwise disjoint, and the sum of 2^#Any over the rows equals 2^n / #sat / #unsat (512-bit counter). \
                 Non-trivial = >= 2 free variables and a non-constant function; distinct by formula text."
         .to_string();
     ctx.assume("-b 0 is outside the property (N >= 1); references are not generated");
@@ -659,6 +966,35 @@ pub fn run(ctx: &mut Ctx) -> Result<(), Violation> {
         Ok(())
     });
     ctx.stage("random-option-subsets", false, r)?;
+
+    // wide formulas: up to 200 free variables, judged by counting instead of a truth table
+    let cases = ctx.tier.pick(1_500, 40_000);
+    let r = par_random(ctx, "wide-formulas", cases, 260, |tape, st| {
+        let mut t = Tape::new(tape);
+        let w = gen_wide(&mut t);
+        st.eval();
+        st.class(match w.n {
+            0..=63 => "wide:n<64",
+            64 => "wide:n=64",
+            65..=128 => "wide:n=65..128",
+            _ => "wide:n>128",
+        });
+        if w.gvars.iter().any(|i| *i >= 64) {
+            st.class("wide:branching-variable-at-column>=64");
+        }
+        if !w.listed.is_empty() {
+            st.class("wide:with-ordering-file");
+        }
+        check_wide(&w)?;
+        if w.n >= 2 && !w.g.is_false() {
+            let j = w.to_json();
+            if st.nontrivial(fnv_str(&j.to_string())) && w.n < 12 {
+                st.nt_sample(|| j.clone());
+            }
+        }
+        Ok(())
+    });
+    ctx.stage("wide-formulas", false, r)?;
     Ok(())
 }
 
@@ -676,6 +1012,12 @@ fn strip_b(flags: &[String]) -> Vec<String> {
 }
 
 pub fn replay(case: &Value) -> Check {
+    if case["kind"].as_str() == Some("wide") {
+        return match Wide::from_json(case) {
+            Some(w) => check_wide(&w),
+            None => Err(Violation::new("unreadable replay case", case.clone())),
+        };
+    }
     match Invocation::from_json(case) {
         Some(inv) => {
             let out = check_invocation(&inv)?;
